@@ -40,17 +40,9 @@ def is_nan(bits):
 
 
 def f1_class(w, r):
-    """float written as bits w came back as bits r != w in a way the decimal float codec (finding F1) explains"""
-    if w == r:
-        return False
-    if is_nan(w) or is_nan(r):
-        return is_nan(w) and is_nan(r)          # NaN payload / sign lost
-    a, b = f64(w), f64(r)
-    if a == b:
-        return True                              # -0.0 -> +0.0
-    if a in (float("inf"), float("-inf")) or b in (float("inf"), float("-inf")):
-        return False
-    return abs(a - b) <= 4e-15 * max(abs(a), abs(b), 5e-324 * 1e16)
+    """float written as bits w came back as bits r != w in the one way the (repaired) decimal float codec still
+    allows: -0.0 read back as +0.0 (known finding F1z; the 1-ulp / NaN classes of the original F1 are fixed)"""
+    return w == 0x8000000000000000 and r == 0
 
 
 class ColGen:
@@ -235,7 +227,7 @@ def classify_value(col, w, r):
     if not col.tag and col.ty in "sb" and w == "N" and r == col.ty + "-":
         return "F10"
     if not col.tag and col.ty == "f" and w[0] == "f" and r[0] == "f" and f1_class(int(w[1:], 16), int(r[1:], 16)):
-        return "F1"
+        return "F1z"
     return None
 
 
@@ -347,7 +339,7 @@ class C01(base.StoreSpec):
                 if verdict == "F10":
                     known = ("known", "F10", "column %s written %s returned %s" % ex)
                 elif known is None:
-                    known = ("known", "F1", "float field %s written %s returned %s (decimal float column codec)" % ex)
+                    known = ("known", "F1z", "float field %s written %s returned %s (decimal float column codec drops the sign of zero)" % ex)
             missing = [k for k in best if k not in seen]
             if missing:
                 return ("violation", "written point missing from the result: series %d timestamp %d (%d missing)" % (
